@@ -127,6 +127,11 @@ func genCmdSeq(r *hx.Rng, seq int) []cstep {
 	return st
 }
 
+// minKeyLen: the shortest engine key the data layer wrote (read on the mem engine, whose raw cursor is not
+// confined to a prefix). The engines are only required to agree on non-empty keys (pebble cannot flush the
+// empty user key); this records that the data layer never writes one.
+var minKeyLen = -1
+
 func runCmdSeq(eng string, steps []cstep) []string {
 	out := make([]string, len(steps))
 	sm, err := smx.Open(eng, "local")
@@ -144,6 +149,15 @@ func runCmdSeq(eng string, steps []cstep) []string {
 			out[i] = sm.Apply(smx.OnePerCall, []smx.Req{{Args: s.args, Ts: ts}})[0]
 		} else {
 			out[i] = sm.Read(s.args...)
+		}
+	}
+	if eng == "mem" {
+		for _, l := range sm.RawDump() {
+			k := strings.SplitN(l, "=", 2)[0]
+			n := len(hx.UnH(k))
+			if minKeyLen < 0 || n < minKeyLen {
+				minKeyLen = n
+			}
 		}
 	}
 	return out
@@ -198,4 +212,7 @@ func cmdMode(seed int64, nseq int, engines []string, replayFile, outDir string) 
 		}
 		o.Close()
 	}
+	ko := hx.Create(outDir + "/cmd-minkeylen.out")
+	ko.Printf("minkeylen\t%d\n", minKeyLen)
+	ko.Close()
 }
